@@ -3,16 +3,31 @@
 // Contracts for package dict (generic helpers; each contract applies to every instantiation).
 package dict
 
+// Keys / SortedKeys: the result holds keys of the map only, and every key of the map (the sorted variant
+// is a permutation of the unsorted one). Values / SortedValues: the result holds values of the map only, and
+// the value of every key.
 //@ func Keys
 //@   ensures fresh(result)
+//@   ensures @keys: forall i int :: {result[i]} 0 <= i && i < len(result) ==> (result[i] in m)
+//@   ensures @all: forall k K :: {key(m, k)} (k in m) ==> (exists i int :: 0 <= i && i < len(result) && result[i] == k)
 //@   loop 1 invariant fresh(res)
+//@   loop 1 invariant forall i int :: {res[i]} 0 <= i && i < len(res) ==> (res[i] in m)
+//@   loop 1 invariant forall k K :: {$seen[k]} $seen[k] ==> (exists i int :: 0 <= i && i < len(res) && res[i] == k)
 //
 //@ func SortedKeys
 //@   ensures fresh(result)
+//@   ensures @keys: forall i int :: {result[i]} 0 <= i && i < len(result) ==> (result[i] in m)
+//@   ensures @all: forall k K :: {key(m, k)} (k in m) ==> (exists i int :: 0 <= i && i < len(result) && result[i] == k)
 //
 //@ func Values
 //@   ensures fresh(result)
+//@   ensures @values: forall i int :: {result[i]} 0 <= i && i < len(result) ==> (exists k K :: (k in m) && m[k] == result[i])
+//@   ensures @all: forall k K :: {key(m, k)} (k in m) ==> (exists i int :: 0 <= i && i < len(result) && result[i] == m[k])
 //@   loop 1 invariant fresh(res)
+//@   loop 1 invariant forall i int :: {res[i]} 0 <= i && i < len(res) ==> (exists k K :: (k in m) && m[k] == res[i])
+//@   loop 1 invariant forall k K :: {$seen[k]} $seen[k] ==> (exists i int :: 0 <= i && i < len(res) && res[i] == m[k])
 //
 //@ func SortedValues
 //@   ensures fresh(result)
+//@   ensures @values: forall i int :: {result[i]} 0 <= i && i < len(result) ==> (exists k K :: (k in m) && m[k] == result[i])
+//@   ensures @all: forall k K :: {key(m, k)} (k in m) ==> (exists i int :: 0 <= i && i < len(result) && result[i] == m[k])
